@@ -344,6 +344,17 @@ def check_expansion(b, fn, tr, ty, n, rep, ctx=None):
     if ok:
         for (bb, name, t), (want, wty) in zip(calls, exp):
             if want == 'UNWRAP':
+                if name == 'core::result::Result::unwrap_or_else' and not isinstance(bb, tuple):
+                    # `.unwrap_or_else(|e| panic!("{}", e))`: unwrap() with another message, when the closure does nothing but panic
+                    ct_ = norm(T.call_term(bb))
+                    f_ = ct_[2][1] if ct_[0] == 'call' and len(ct_[2]) == 2 else None
+                    while f_ is not None and f_[0] in ('ref', 'unsize', 'mutated'):
+                        f_ = f_[1]
+                    cb_ = None
+                    if f_ is not None and f_[0] == 'closure':
+                        cb_ = next((x for x in b.crate.all_bodies if x.path == f_[1]), None)
+                    if cb_ is not None and _only_panics(cb_, [0]):
+                        continue
                 if name not in ('core::result::Result::unwrap', 'core::result::Result::expect'):
                     ok = False
                     why = 'the global client is extracted with %s (must panic exactly when unset: unwrap/expect)' % name
